@@ -4,7 +4,7 @@ Require Import ZArith List Bool Lia.
 Require Import AV.BigInt.Model AV.BigInt.Facts AV.BigInt.FactsCmp AV.BigInt.FactsAdd AV.BigInt.FactsMul
                AV.BigInt.FactsBits AV.BigInt.FactsDivS AV.BigInt.FactsStr AV.BigInt.FactsScan
                AV.BigInt.FactsShift AV.BigInt.FactsPow AV.BigInt.FactsConv AV.BigInt.FactsDiv5
-               AV.BigInt.FactsGcd AV.BigInt.FactsMod.
+               AV.BigInt.FactsGcd AV.BigInt.FactsMod AV.BigInt.FactsPowMod.
 Import ListNotations.
 Local Open Scope Z_scope.
 
@@ -67,8 +67,8 @@ Proof. vm_compute. reflexivity. Qed.
 Example ex_to_long_hyps : Z.abs (val (Sto true [0; 1073741824])) < H63 /\ norm (Sto true [0; 1073741824]).
 Proof. split; [unfold H63; cbn; lia | reflexivity]. Qed.
 
-(* Refuted corner of "modular powers are exact", kept visible: a^0 mod c is 0 when |c| = 1, the code
-   (and therefore the faithful model) answers 1 before looking at the modulus. *)
-Example powermod_zero_exponent_unit_modulus_refuted :
-  fiBIntPowerMod (Imm 5) (Imm 0) (Imm 1) = Some (Imm 1) /\ Z.rem (5 ^ 0) 1 = 0.
-Proof. split; reflexivity. Qed.
+(* powermod_exact: hypotheses norm a b c, val c <> 0, 0 <= val b; exponent 0 with a unit modulus gives 0 *)
+Example ex_powmod_unit : fiBIntPowerMod (Imm 5) (Imm 0) (Imm 1) = Some (Imm 0).
+Proof. reflexivity. Qed.
+Example ex_powmod_thm : exists r, fiBIntPowerMod exD exB exA = Some r /\ val r = Z.rem (val exD ^ val exB) (val exA) /\ norm r.
+Proof. apply FactsPowMod.powermod_exact; [exact exD_norm | exact exB_norm | exact exA_norm | discriminate | discriminate]. Qed.
